@@ -680,7 +680,7 @@ func (f *frame) intrinsic(n *node, callee *ssa.Function, args []Val) (Val, bool)
 			unsup("vcCalls needs a string literal")
 		}
 		return Val{T: types.Typ[types.Int], C: []string{x.getCounter(n.heap, id)}}, true
-	case name == "vcStreamOf" || name == "vcBufferOf":
+	case name == "vcStreamOf" || name == "vcBufferOf" || name == "vcBuilderOf":
 		// ghost view of a *bufio.Reader
 		a := args[0]
 		return Val{T: callee.Signature.Results().At(0).Type(), C: a.C, Old: a.Old}, true
